@@ -364,6 +364,17 @@ TrGc ==
   /\ Gc
 
 (* ---- reordering ---- *)
+(* hook events of one set_var_order call: <<0, i>> the swap of the non-empty
+   levels i, i+1 begins, <<1, i>> it ended.  As in BubbleSort!NoOverlap, two
+   swaps in progress never share a level. *)
+RECURSIVE SwapsOkFrom(_, _, _)
+SwapsOkFrom(evs, k, inprog) ==
+  IF k > Len(evs) THEN inprog = {}
+  ELSE LET i == evs[k][2] IN
+       IF evs[k][1] = 0
+       THEN {i - 1, i, i + 1} \cap inprog = {} /\ SwapsOkFrom(evs, k + 1, inprog \cup {i})
+       ELSE i \in inprog /\ SwapsOkFrom(evs, k + 1, inprog \ {i})
+SwapsOk(evs) == SwapsOkFrom(evs, 1, {})
 ReorderObs(r) ==
   IF Has(r, "res") THEN << O("C08", "reorder.panic", FALSE) >>
   ELSE LET good == IsPerm(r.l2v, n) IN
@@ -371,7 +382,9 @@ ReorderObs(r) ==
           O("C08", "order.inverse", good => r.v2l = [i \in 1 .. n |-> InvPerm(r.l2v)[i - 1]]),
           O("C08", "order.request", good => RespectsReq(r.l2v, r.req)),
           O("C08", "order.minimal", (good /\ n <= 6) =>
-               Inversions(l2v, r.l2v) = MinInversions(r.req)) >>
+               Inversions(l2v, r.l2v) = MinInversions(r.req)),
+          O("C08", IF Has(r, "conc") /\ r.conc THEN "swaps.no_overlap:concurrent" ELSE "swaps.no_overlap:sequential",
+               Has(r, "swaps") => SwapsOk(r.swaps)) >>
 TrReorder ==
   /\ Ev("reorder")
   /\ Step(ReorderObs(Rec[l]))
